@@ -21,6 +21,9 @@ CLAIMED["C01"] = ("exploration", "deviation-bounded exhaustive enumeration of ti
 CLAIMED["C02"] = ("exploration", "exhaustive crossing of link kind x parameter alphabet x head-difference alphabet x HW approximation in an isolation rig, plus deviation-bounded enumeration of tiny networks; per-link law oracle chosen by reported status",
     "every link kind/status/parameter combination of the alphabets is simulated between fixed heads and inside the netspace networks; the documented head-flow relation is re-evaluated from reported flows and heads at every step",
     "two open known findings (pump reverse flow in infeasible placements); tolerances derived from Newton TOL and the documented smoothing terms")
+CLAIMED["C09"] = ("exploration", "exhaustive enumeration of all small multigraphs x every closed-link subset x toggle schedules, each simulated; oracle = reference graph reachability over reported statuses + steady-state differential",
+    "all connected multigraphs within the node/link bound (canonical under relabelling), all 2^L closed subsets and all single (thorough: double) toggle schedules are simulated on the real simulator (Python graph bookkeeping and the C++ search are both rebuilt from the tree)",
+    "networks larger than the bound are not covered; pump/TCV variants only on link 0")
 NOT_YET = "check not built yet in this session (work in progress, see DESIGN.md section 4)"
 
 
